@@ -59,6 +59,12 @@ CHECKS = [
         "text": "For every type of the bijective fragment x every model-built value x 3 aliasers x additional_properties: deserialize(serialize(v)) is the typed value (classes at every position), also through json; for every accepted datum of the C01 space serialize(deserialize(d)) contains d and re-deserializes to an equal value; 15 standard-library converted types and 4 discriminated unions x 6 contexts x sample values.",
         "note": "Non-bijective shapes are excluded by name and listed in the evidence. Known findings: non-dyadic Decimal; Optional[Union[...]] with inherited discriminator.",
     },
+    {
+        "id": "C08", "engine": "E1", "design_ref": "DESIGN.md §5 C08",
+        "technique": "bounded exhaustive enumeration of (type, datum / value) x the option lattice with a differential oracle against the default option vector, on the real code",
+        "text": "Deserialization: every type x every datum at <=1 deviation x no_copy x override_dataclass_constructors x {deserialize(), precomputed method}: same verdict, same typed value, identical errors; no shared mutable container with the input when no_copy=False; input never modified. Serialization: every model-built value x no_copy x check_type x {function, method} x all 32 PassThroughOptions flag vectors (+ types as a set and as a predicate): equal to the default output after completing passed-through leaves with serialization_default.",
+        "note": "quick = level<=1 types; thorough adds the level-2 pairs. Known finding: pass-through dataclass holding a flattened field raises TypeError.",
+    },
 ]
 _PENDING = "check not built yet in this round (planned, see DESIGN.md §5); not claimed until it runs green"
-NOT_APPLICABLE = [{"property_id": f"C{i:02d}", "reason": _PENDING} for i in range(4, 20) if i not in (4, 5, 9, 13, 14, 15)]
+NOT_APPLICABLE = [{"property_id": f"C{i:02d}", "reason": _PENDING} for i in range(4, 20) if i not in (4, 5, 8, 9, 13, 14, 15)]
